@@ -176,7 +176,10 @@ def named_paths(r):
     ns1, _, loc1 = tag1[1:].partition('}') if tag1.startswith('{') else ('', '', tag1)
     nsmap = {'q1': ns1} if ns1 else {}
     step1 = ('q1:' if ns1 else '') + loc1
-    grand = collections.Counter(g.tag for c in root if c.tag == tag1 for g in c if isinstance(g.tag, str))
+    # (a grandchild that is not the first child of its parent, when there is one: the parent is then already known to
+    # the XPath view when the candidate arrives)
+    grand = collections.Counter(g.tag for c in root if c.tag == tag1 for g in list(c)[1:] if isinstance(g.tag, str)) or \
+        collections.Counter(g.tag for c in root if c.tag == tag1 for g in c if isinstance(g.tag, str))
     if not grand:
         return (step1, nsmap), (None, None)
     tag2 = grand.most_common(1)[0][0]
@@ -299,6 +302,25 @@ def compare_document(res, xmlschema, schema, text, tag, case, rng, tier, scratch
                         res.count(f'explored_not_claimed:depth{depth}:' + ('agree' if same else f'differs:{api}'))
 
 
+def align_to_buffer(text, size=16384):
+    """Insert a comment after the root's start tag so that the start tag of the second child of some depth-1 element
+    lands exactly on a multiple of the parser's read size."""
+    import re
+    data = text.encode('utf-8')
+    head_end = data.index(b'>', data.index(b'<', data.index(b'?>') + 2 if data.startswith(b'<?xml') else 0)) + 1
+    # second-level start tags: '<x:price' etc. after a '</x:title>' of a product beyond the first buffer
+    for m in re.finditer(rb'</(?:\w+:)?title><', data):
+        pos = m.end() - 1
+        if pos > size // 2:
+            pad = (-(pos)) % size
+            if pad < 7:
+                pad += size
+            out = data[:head_end] + b'<!--' + b'p' * (pad - 7) + b'-->' + data[head_end:]
+            assert (pos + pad) % size == 0
+            return out.decode('utf-8')
+    return None
+
+
 def run_gen(spec, res):
     xmlschema = env.activate_repo()
     schemas = {}
@@ -351,6 +373,15 @@ def run_gen(spec, res):
             res.count('big_documents')
         for tree, fault in variants:
             text = D.render_doc(tree, fam, prefixes=prefixes)
+            if big and fault == 'valid':
+                # the same document padded so that a read-buffer boundary of the parser (16 KiB) falls inside a product,
+                # between two of its children: the streamed chunk is extended after its first children were seen
+                aligned = align_to_buffer(text)
+                if aligned:
+                    case = {'family': fam, 'version': version, 'doc': aligned, 'fault': 'valid:buffer-boundary-inside-a-chunk'}
+                    res.count('big_documents:aligned_to_buffer_boundary')
+                    compare_document(res, xmlschema, schema, aligned, (fam, 'valid:aligned'), case, rng, spec['tier'], scratch,
+                                     len(tree.children))
             case = {'family': fam, 'version': version, 'doc': text, 'fault': fault}
             compare_document(res, xmlschema, schema, text, (fam, fault), case, rng, spec['tier'], scratch, len(tree.children))
             if len(res.samples) < 2:
